@@ -1576,7 +1576,7 @@ class Char_Selector(Base):  # R424
             line = line[1:].lstrip()
             i = line.find(",")
             if i == -1:
-                return None, Scalar_Int_Initialization_Expr(line)
+                return None, Scalar_Int_Initialization_Expr(repmap(line))
             v = line[i + 1 :].lstrip()
             line = line[:i].rstrip()
             if v[:3].upper() != "LEN":
@@ -1585,7 +1585,9 @@ class Char_Selector(Base):  # R424
             if not v.startswith("="):
                 return
             v = v[1:].lstrip()
-            return Type_Param_Value(v), Scalar_Int_Initialization_Expr(line)
+            return Type_Param_Value(repmap(v)), Scalar_Int_Initialization_Expr(
+                repmap(line)
+            )
 
         i = line.find(",")
         if i == -1:
@@ -1595,7 +1597,9 @@ class Char_Selector(Base):  # R424
         if line[:4].upper() == "KIND" and line[4:].lstrip().startswith("="):
             line = line[4:].lstrip()
             line = line[1:].lstrip()
-        return Type_Param_Value(v), Scalar_Int_Initialization_Expr(line)
+        return Type_Param_Value(repmap(v)), Scalar_Int_Initialization_Expr(
+            repmap(line)
+        )
 
     def tostr(self):
         if self.items[0] is None:
